@@ -41,9 +41,15 @@ UnaryClause(e) ==
            IF e.float.raised THEN "float_raised"
            ELSE IF ~Nearest(A, Dec(e.float.f), Dec(e.float.lo), Dec(e.float.hi)) THEN "float_nearest" ELSE "" >>)
 
+ConvClause(e) ==
+  LET A == Val(e.a) IN
+  First(<< IF e.int.raised THEN "int_raised" ELSE IF ~Eq(Dec(e.int.v), Trunc(A)) THEN "int_value" ELSE "",
+           IF e.float.raised THEN "float_raised"
+           ELSE IF ~Nearest(A, Dec(e.float.f), Dec(e.float.lo), Dec(e.float.hi)) THEN "float_nearest" ELSE "" >>)
+
 Init == l = 1
 Next == /\ l <= Len(T_)
-        /\ LET e == T_[l]  c == IF e.kind = "pair" THEN PairClause(e) ELSE UnaryClause(e)
+        /\ LET e == T_[l]  c == IF e.kind = "pair" THEN PairClause(e) ELSE IF e.kind = "conv" THEN ConvClause(e) ELSE UnaryClause(e)
            IN PrintT(<<"VERDICT", e.tid, c = "", c>>)
         /\ l' = l + 1
 Spec == Init /\ [][Next]_l
